@@ -194,7 +194,7 @@ def matchLoop (K : Consts) (spq nq : Option Str) : List Str → Except Err (Opti
     match decode v with
     | .error e => .error e
     | .ok nid =>
-      if nid.fmt = some K.transient then matchLoop K spq nq vs
+      if nid.fmt ≠ some K.persistent then matchLoop K spq nq vs      -- only persistent identifiers (fix cd87445c)
       else if qualMatch nid spq nq then .ok (some nid)
       else matchLoop K spq nq vs
 
